@@ -1,4 +1,5 @@
-(* Fmt/Witness.v — witnesses for the findings of C14 and for the satisfiability of the hypotheses.
+(* Fmt/Witness.v — the witnesses of the former findings of C14 (repaired in cst_print.rs) and the satisfiability of the
+   hypotheses: on each of them the repaired document builder now does the right thing.
    Every `cst` below is the REAL green tree of the quoted source text (dumped by harness/lang/src/bin/fmt_run.rs and
    converted mechanically); checks/C14.py replays the same sources on the real formatter. *)
 From Coq Require Import String Ascii List Bool Arith.
@@ -25,18 +26,18 @@ Lemma all_renderings_spec : forall d P, all_renderings d P = true ->
   forall r, In r (renderings d) -> P (flat_string r) = true.
 Proof. intros d P H r Hr. unfold all_renderings in H. rewrite forallb_forall in H. now apply H. Qed.
 
-(* "fn f(a, b){ let x = g(a, b) + 1 // sum\n  x |> h }" *)
+(* "fn f(a, b){ let x = g(a, b) + 1 // sum\n  x |> h }"   (the hypotheses are satisfiable) *)
 Definition c_ok : cst :=
 Node SProgram [
   Node SStatement [
     Node SFunctionDecl [
       Tok KFunction "fn" [] [TWs];
-      Tok KOther "f" [] [];
-      Node (SGroupedList false) [
+      Tok KIdent "f" [] [];
+      Node (SGroupedList false true) [
         Tok KParenBegin "(" [] [];
-        Tok KOther "a" [] [];
+        Tok KIdent "a" [] [];
         Tok KComma "," [] [TWs];
-        Tok KOther "b" [] [];
+        Tok KIdent "b" [] [];
         Tok KParenEnd ")" [] []];
       Node SBlockExpr [
         Tok KBlockBegin "{" [] [TWs];
@@ -44,34 +45,33 @@ Node SProgram [
           Node SLetDecl [
             Tok KLet "let" [] [TWs];
             Node (SLeaf false) [
-              Tok KOther "x" [] [TWs]];
+              Tok KIdent "x" [] [TWs]];
             Tok KAssign "=" [] [TWs];
             Node SBinaryExpr [
               Node SCallExpr [
                 Node (SLeaf false) [
-                  Tok KOther "g" [] []];
-                Node (SGroupedList false) [
+                  Tok KIdent "g" [] []];
+                Node (SGroupedList false true) [
                   Tok KParenBegin "(" [] [];
                   Node (SLeaf false) [
-                    Tok KOther "a" [] []];
+                    Tok KIdent "a" [] []];
                   Tok KComma "," [] [TWs];
                   Node (SLeaf false) [
-                    Tok KOther "b" [] []];
+                    Tok KIdent "b" [] []];
                   Tok KParenEnd ")" [] [TWs]]];
-              Tok (KOp false) "+" [] [TWs];
+              Tok (KOp false true) "+" [] [TWs];
               Node (SLeaf false) [
                 Tok KOther "1" [] [TWs; TLine "// sum"; TNl; TWs]]]]];
         Node SStatement [
           Node SBinaryExpr [
             Node (SLeaf false) [
-              Tok KOther "x" [] [TWs]];
-            Tok (KOp true) "|>" [] [TWs];
+              Tok KIdent "x" [] [TWs]];
+            Tok (KOp true false) "|>" [] [TWs];
             Node (SLeaf false) [
-              Tok KOther "h" [] [TWs]]]];
-        Tok KBlockEnd "}" [] []]]]]
-.
+              Tok KIdent "h" [] [TWs]]]];
+        Tok KBlockEnd "}" [] []]]]].
 
-(* "if (c)\n (a, b) else d"   (finding if-then-branch-starts-with-bracket) *)
+(* "if (c)\n (a, b) else d"   (former finding FM6 if-then-branch-starts-with-bracket) *)
 Definition c_if_then_bracket : cst :=
 Node SProgram [
   Node SStatement [
@@ -80,73 +80,99 @@ Node SProgram [
       Node SParenExpr [
         Tok KParenBegin "(" [] [];
         Node (SLeaf false) [
-          Tok KOther "c" [] []];
+          Tok KIdent "c" [] []];
         Tok KParenEnd ")" [] [TNl; TWs]];
-      Node (SGroupedList false) [
+      Node (SGroupedList false true) [
         Tok KParenBegin "(" [] [];
         Node (SLeaf false) [
-          Tok KOther "a" [] []];
+          Tok KIdent "a" [] []];
         Tok KComma "," [] [TWs];
         Node (SLeaf false) [
-          Tok KOther "b" [] []];
+          Tok KIdent "b" [] []];
         Tok KParenEnd ")" [] [TWs]];
       Tok KElse "else" [] [TWs];
       Node (SLeaf false) [
-        Tok KOther "d" [] []]]]]
-.
+        Tok KIdent "d" [] []]]]].
 
-(* "(a, /* c */ b)"   (finding comment-on-reconstructed-token) *)
+(* "(a, /* c */ b)"   (former finding FM4 comment-on-reconstructed-token) *)
 Definition c_comma_comment : cst :=
 Node SProgram [
   Node SStatement [
-    Node (SGroupedList false) [
+    Node (SGroupedList false true) [
       Tok KParenBegin "(" [] [];
       Node (SLeaf false) [
-        Tok KOther "a" [] []];
+        Tok KIdent "a" [] []];
       Tok KComma "," [] [TWs; TBlock "/* c */"; TWs];
       Node (SLeaf false) [
-        Tok KOther "b" [] []];
-      Tok KParenEnd ")" [] []]]]
-.
+        Tok KIdent "b" [] []];
+      Tok KParenEnd ")" [] []]]].
 
-(* "if gate {x}"   (finding if-condition-without-parenthesis) *)
+(* "fn f(){ 1 } // done\n// about g\nfn g(){ 2 }"   (former finding FM4: comments after a closing brace) *)
+Definition c_brace_comment : cst :=
+Node SProgram [
+  Node SStatement [
+    Node SFunctionDecl [
+      Tok KFunction "fn" [] [TWs];
+      Tok KIdent "f" [] [];
+      Node (SGroupedList false true) [
+        Tok KParenBegin "(" [] [];
+        Tok KParenEnd ")" [] []];
+      Node SBlockExpr [
+        Tok KBlockBegin "{" [] [TWs];
+        Node SStatement [
+          Node (SLeaf false) [
+            Tok KOther "1" [] [TWs]]];
+        Tok KBlockEnd "}" [] [TWs; TLine "// done"; TNl; TLine "// about g"; TNl]]]];
+  Node SStatement [
+    Node SFunctionDecl [
+      Tok KFunction "fn" [] [TWs];
+      Tok KIdent "g" [] [];
+      Node (SGroupedList false true) [
+        Tok KParenBegin "(" [] [];
+        Tok KParenEnd ")" [] []];
+      Node SBlockExpr [
+        Tok KBlockBegin "{" [] [TWs];
+        Node SStatement [
+          Node (SLeaf false) [
+            Tok KOther "2" [] [TWs]]];
+        Tok KBlockEnd "}" [] []]]]].
+
+(* "if gate {x}"   (former finding FM1 if-condition-without-parenthesis) *)
 Definition c_if_word : cst :=
 Node SProgram [
   Node SStatement [
     Node SIfExpr [
       Tok KIf "if" [] [TWs];
       Node (SLeaf false) [
-        Tok KOther "gate" [] [TWs]];
+        Tok KIdent "gate" [] [TWs]];
       Node SBlockExpr [
         Tok KBlockBegin "{" [] [];
         Node SStatement [
           Node (SLeaf false) [
-            Tok KOther "x" [] []]];
-        Tok KBlockEnd "}" [] []]]]]
-.
+            Tok KIdent "x" [] []]];
+        Tok KBlockEnd "}" [] []]]]].
 
-(* "- -x"   (finding sign-of-signed-operand) *)
+(* "- -x"   (former finding FM8 sign-of-signed-operand) *)
 Definition c_neg_neg : cst :=
 Node SProgram [
   Node SStatement [
     Node SUnaryExpr [
-      Tok (KOp false) "-" [] [TWs];
+      Tok (KOp false true) "-" [] [TWs];
       Node SUnaryExpr [
-        Tok (KOp false) "-" [] [];
+        Tok (KOp false true) "-" [] [];
         Node (SLeaf false) [
-          Tok KOther "x" [] []]]]]]
-.
+          Tok KIdent "x" [] []]]]]].
 
-(* "fn f(x:float){x}"   (finding multi-node-list-item) *)
+(* "fn f(x:float){x}"   (former finding FM3 multi-node-list-item) *)
 Definition c_typed_param : cst :=
 Node SProgram [
   Node SStatement [
     Node SFunctionDecl [
       Tok KFunction "fn" [] [TWs];
-      Tok KOther "f" [] [];
-      Node (SGroupedList false) [
+      Tok KIdent "f" [] [];
+      Node (SGroupedList false true) [
         Tok KParenBegin "(" [] [];
-        Tok KOther "x" [] [];
+        Tok KIdent "x" [] [];
         Node (SLeaf false) [
           Tok KOther ":" [] [];
           Node (SLeaf true) [
@@ -156,11 +182,10 @@ Node SProgram [
         Tok KBlockBegin "{" [] [];
         Node SStatement [
           Node (SLeaf false) [
-            Tok KOther "x" [] []]];
-        Tok KBlockEnd "}" [] []]]]]
-.
+            Tok KIdent "x" [] []]];
+        Tok KBlockEnd "}" [] []]]]].
 
-(* "| | x"   (finding lambda-without-parameters) *)
+(* "| | x"   (former finding FM2 lambda-without-parameters) *)
 Definition c_lambda0 : cst :=
 Node SProgram [
   Node SStatement [
@@ -168,22 +193,20 @@ Node SProgram [
       Tok KLambdaBar "|" [] [TWs];
       Tok KLambdaBar "|" [] [TWs];
       Node (SLeaf false) [
-        Tok KOther "x" [] []]]]]
-.
+        Tok KIdent "x" [] []]]]].
 
-(* "(a,)"   (finding one-element-tuple) *)
+(* "(a,)"   (former finding FM7 one-element-tuple) *)
 Definition c_tuple1 : cst :=
 Node SProgram [
   Node SStatement [
-    Node (SGroupedList false) [
+    Node (SGroupedList false true) [
       Tok KParenBegin "(" [] [];
       Node (SLeaf false) [
-        Tok KOther "a" [] []];
+        Tok KIdent "a" [] []];
       Tok KComma "," [] [];
-      Tok KParenEnd ")" [] []]]]
-.
+      Tok KParenEnd ")" [] []]]].
 
-(* "if (a) x = 1 else y"   (finding assignment-as-if-branch) *)
+(* "if (a) x = 1 else y"   (former finding FM9 assignment-as-if-branch) *)
 Definition c_if_assign : cst :=
 Node SProgram [
   Node SStatement [
@@ -192,17 +215,17 @@ Node SProgram [
       Node SParenExpr [
         Tok KParenBegin "(" [] [];
         Node (SLeaf false) [
-          Tok KOther "a" [] []];
+          Tok KIdent "a" [] []];
         Tok KParenEnd ")" [] [TWs]];
       Node (SLeaf false) [
-        Tok KOther "x" [] [TWs]];
+        Tok KIdent "x" [] [TWs]];
       Node SAssignExpr [
         Tok KAssign "=" [] [TWs];
         Node (SLeaf false) [
           Tok KOther "1" [] [TWs]]];
       Tok KElse "else" [] [TWs];
       Node (SLeaf false) [
-        Tok KOther "y" [] []]]]].
+        Tok KIdent "y" [] []]]]].
 
 (* ---- the hypotheses of the positive theorems are satisfiable ---- *)
 Lemma ok_in_fragment : in_fragment c_ok = true. Proof. vm_compute. reflexivity. Qed.
@@ -210,52 +233,41 @@ Lemma ok_safe : safe_breaks (doc_of 4 c_ok) = true. Proof. vm_compute. reflexivi
 Lemma ok_emits_all : emits_all 4 c_ok. Proof. vm_compute. reflexivity. Qed.
 Lemma ok_has_renderings : renderings (doc_of 4 c_ok) <> []. Proof. vm_compute. discriminate. Qed.
 
-(* ---- findings ---- *)
-(* the flat layout and the layout broken before the then-branch show the parser different line-break flags at the
-   sensitive position `) (` : the flat one re-parses as the call (c)(a, b) *)
-Lemma if_then_bracket_unsafe :
-  exists r1 r2, in_fragment c_if_then_bracket = true /\
-    In r1 (renderings (doc_of 4 c_if_then_bracket)) /\ In r2 (renderings (doc_of 4 c_if_then_bracket)) /\
-    words r1 = words r2 /\ observed r1 <> observed r2.
-Proof.
-  exists (nth 0 (renderings (doc_of 4 c_if_then_bracket)) []).
-  exists (last (renderings (doc_of 4 c_if_then_bracket)) []).
-  split; [vm_compute; reflexivity|].
-  split; [vm_compute; tauto|].
-  split; [vm_compute; tauto|].
-  split; [vm_compute; reflexivity|].
-  vm_compute. discriminate.
-Qed.
-
-Lemma if_then_bracket_not_safe : safe_breaks (doc_of 4 c_if_then_bracket) = false.
-Proof. vm_compute. reflexivity. Qed.
-
-Lemma comma_comment_dropped :
-  in_fragment c_comma_comment = true /\
-  comments_in (cst_words c_comma_comment) = ["/* c */"] /\ comments_in (dwords (doc_of 4 c_comma_comment)) = [].
+(* ---- former findings: the repaired printer ---- *)
+(* the then-branch that starts with `(` is separated by a forced break: no optional break decides a sensitive position *)
+Lemma if_then_bracket_safe :
+  in_fragment c_if_then_bracket = true /\ safe_breaks (doc_of 4 c_if_then_bracket) = true /\ emits_all 4 c_if_then_bracket.
 Proof. vm_compute. auto. Qed.
 
-Lemma if_word_glued : in_fragment c_if_word = true /\
-  all_renderings (doc_of 4 c_if_word) (prefix "ifgate") = true.
+(* the comment of the comma is in the document, after the comma *)
+Lemma comma_comment_kept : in_fragment c_comma_comment = true /\ emits_all 4 c_comma_comment.
 Proof. vm_compute. auto. Qed.
 
-Lemma neg_neg_glued : in_fragment c_neg_neg = true /\
-  all_renderings (doc_of 4 c_neg_neg) (prefix "--x") = true.
+(* the comments in the trivia of a closing brace are in the document *)
+Lemma brace_comment_kept : in_fragment c_brace_comment = true /\ emits_all 4 c_brace_comment /\
+  comments_in (dwords (doc_of 4 c_brace_comment)) = ["// done"; "// about g"].
 Proof. vm_compute. auto. Qed.
 
-Lemma typed_param_split : in_fragment c_typed_param = true /\
-  all_renderings (doc_of 4 c_typed_param) (contains "x,") = true.
+Lemma if_word_spaced : in_fragment c_if_word = true /\
+  all_renderings (doc_of 4 c_if_word) (prefix "if gate") = true.
 Proof. vm_compute. auto. Qed.
 
-Lemma lambda0_glued : in_fragment c_lambda0 = true /\
-  all_renderings (doc_of 4 c_lambda0) (prefix "|| x") = true.
+Lemma neg_neg_spaced : in_fragment c_neg_neg = true /\
+  all_renderings (doc_of 4 c_neg_neg) (prefix "- -x") = true.
 Proof. vm_compute. auto. Qed.
 
-Lemma tuple1_comma_lost : in_fragment c_tuple1 = true /\
-  all_renderings (doc_of 4 c_tuple1) (String.eqb "(a)") = true.
+Lemma typed_param_together : in_fragment c_typed_param = true /\
+  all_renderings (doc_of 4 c_typed_param) (contains "(x:float)") = true.
 Proof. vm_compute. auto. Qed.
 
-Lemma if_assign_dropped : in_fragment c_if_assign = true /\
-  cst_words c_if_assign = ["if"; "("; "a"; ")"; "x"; "="; "1"; "else"; "y"] /\
-  dwords (doc_of 4 c_if_assign) = ["if"; "("; "a"; ")"; "x"; "else"; "y"].
+Lemma lambda0_spaced : in_fragment c_lambda0 = true /\
+  all_renderings (doc_of 4 c_lambda0) (prefix "| | x") = true.
+Proof. vm_compute. auto. Qed.
+
+Lemma tuple1_comma_kept : in_fragment c_tuple1 = true /\
+  all_renderings (doc_of 4 c_tuple1) (String.eqb "(a,)") = true.
+Proof. vm_compute. auto. Qed.
+
+Lemma if_assign_kept : in_fragment c_if_assign = true /\ emits_all 4 c_if_assign /\
+  all_renderings (doc_of 4 c_if_assign) (contains "x = 1") = true.
 Proof. vm_compute. auto. Qed.
